@@ -310,6 +310,9 @@ def compare_streams(ctx, mod, lines, model_out, impl_out, cfg, crashed=None, max
         mo = model_out[i]
         if io == mo:
             continue
+        if io == "unavailable" and hasattr(mod, "unavailable_ok") and mod.unavailable_ok(ctx, cfg, ln):
+            ctx.stats["unavailable_skipped"] = ctx.stats.get("unavailable_skipped", 0) + 1
+            continue
         kf = match_known(ctx.prop, ln)
         if kf is not None:
             msg = "KNOWN-FINDING: property=%s %s" % (ctx.prop, kf["what"])
